@@ -356,7 +356,8 @@ func (conn *Conn) read(ctx *Context, async bool) {
 		if ctx.Error == shutdownMsg {
 			call.Error = ErrShutdown
 		} else {
-			call.Error = errors.New(ctx.Error)
+			// ctx.Error may alias the pooled read buffer released below: copy the text.
+			call.Error = errors.New(string(append([]byte(nil), ctx.Error...)))
 		}
 		err = conn.codec.ReadResponseBody(nil, nil)
 		if err != nil {
